@@ -73,6 +73,16 @@ Theorem seq_is_spec : forall ss l ps, spec_seq l ss = Some ps -> run_seq l ss = 
 Proof. exact seq_is_spec_l. Qed.
 Print Assumptions seq_is_spec.
 
+(* chained calls  $a->m1(..)->m2(..)  with no variable in between: the documented result of m2 on
+   the array m1 returned, and the receiver exactly as m1 alone leaves it (in particular untouched
+   when m1 is not a mutating method, whatever m2 does to the intermediate value) *)
+Theorem chain_is_spec : forall l s1 s2 p, spec_chain l s1 s2 = Some p -> run_chain l s1 s2 = Some p.
+Proof. exact chain_is_spec_l. Qed.
+Theorem chain_receiver : forall l s1 s2 p, run_chain l s1 s2 = Some p -> snd p = snd (do_step l s1).
+Proof. exact chain_receiver_l. Qed.
+Print Assumptions chain_is_spec.
+Print Assumptions chain_receiver.
+
 (* sort(): the result (= the receiver afterwards) is ascending by text, a permutation of the
    receiver, and stable (elements with equal text keep their order) *)
 Theorem sort_sorted : forall l, sorted_by_text (ssort l).
